@@ -30,7 +30,7 @@ def run(setname, names, props_filter=None):
     for name in names:
         facts = os.path.join(CACHE, setname, name + ".json")
         fired = {}
-        env = dict(os.environ, VERIF_EVIDENCE_DIR="/tmp/factcache/ev")
+        env = dict(os.environ, VERIF_EVIDENCE_DIR="/tmp/factcache/ev/%s-%s" % (setname, name))
         for pid in sorted(props.PROPS):
             if props_filter and pid not in props_filter:
                 continue
